@@ -22,7 +22,8 @@ def _unescape(s):
     return s.replace('""', '"')
 
 
-_PAIR = re.compile(r'\("((?:[^"]|"")*)",\s*"((?:[^"]|"")*)"\)', re.S)
+_PAIR = re.compile(r'\(\s*"((?:[^"]|"")*)"\s*,\s*"((?:[^"]|"")*)"\s*\)', re.S)
+_COUNT = re.compile(r'=\s*(\d+)(?:%nat)?\s*:\s*nat\s*$')
 _STR = re.compile(r'"((?:[^"]|"")*)"', re.S)
 
 
@@ -54,7 +55,7 @@ def _one_mismatch(args):
     path, chunk, timeout, keep = args
     body = [HEADER, "Definition cases : list (string * string * string) := ["]
     body.append(";\n".join(f'  ("{i}", {e}, "{x}")' for i, e, x in chunk))
-    body.append("].\nEval vm_compute in (mismatches cases).\n")
+    body.append("].\nEval vm_compute in (mismatches cases).\nEval vm_compute in (List.length (mismatches cases)).\n")
     with open(path, "w") as f:
         f.write("\n".join(body))
     try:
@@ -63,7 +64,12 @@ def _one_mismatch(args):
         if not keep:
             _clean(path)
     out = out.replace("\n", " ")
-    return {_unescape(a): _unescape(b) for a, b in _PAIR.findall(out)}
+    res = {_unescape(a): _unescape(b) for a, b in _PAIR.findall(out)}
+    # fail closed: the number of mismatches Coq counted must be the number of pairs parsed from its pretty-printed list
+    m = _COUNT.search(out.strip())
+    if m is None or int(m.group(1)) != len(res):
+        raise CoqError(f"{path}: Coq reports {m.group(1) if m else '?'} mismatching cases, {len(res)} were parsed from its output")
+    return res
 
 
 def run_cases(cases, tag="c", shard=64, jobs=None, timeout=900, keep=False):
